@@ -430,7 +430,7 @@ BBASSIGN = {
 
 class SymExec:
     def __init__(self, facts, body, cgen=None, tgen=None, max_paths=20000, inline=None,
-                 opaque=None, max_inline_blocks=20, max_depth=4, params=None, entry_store=None, raw=False, count_next=False, peel=False, record_assigns=False, unroll=0):
+                 opaque=None, max_inline_blocks=20, max_depth=4, params=None, entry_store=None, raw=False, count_next=False, peel=False, record_assigns=False, unroll=0, rename=None):
         self.facts = facts
         self.ops = Ops(facts)
         self.body = body
@@ -451,16 +451,17 @@ class SymExec:
         self.count_next = count_next
         self.peel = peel
         self.record_assigns = record_assigns
+        self.rename = rename or {}    # actual parameter name -> the canonical name rules use (private functions)
         self.unroll = unroll          # >0: loops are executed as written (no cut, no havoc), at most this many visits per header
         self.types = {}
         self.dn = {}
         self._modset = {}
         self.mut_params = set()
         for i in range(1, body.argc + 1):
-            self.types[("param", body.local_name(i))] = body.locals[i]["ty"]
+            self.types[("param", self.rename.get(body.local_name(i), body.local_name(i)))] = body.locals[i]["ty"]
         for i in range(1, body.argc + 1):
             if body.locals[i]["ty"].startswith("&mut"):
-                self.mut_params.add(body.local_name(i))
+                self.mut_params.add(self.rename.get(body.local_name(i), body.local_name(i)))
 
     # ---------------------------------------------------------------- helpers
     def loops_of(self, body):
@@ -493,7 +494,10 @@ class SymExec:
                     if projs and projs[0] == "deref":
                         l = pl["l"]
                         if 1 <= l <= body.argc and body.locals[l]["ty"].startswith("&mut"):
-                            target = ("P", body.local_name(l))
+                            pn = body.local_name(l)
+                            if body is self.body:
+                                pn = self.rename.get(pn, pn)
+                            target = ("P", pn)
                             projs = projs[1:]
                         elif 1 <= l <= body.argc and body.locals[l]["ty"].startswith("&"):
                             return          # shared reference parameter: cannot be written through
@@ -644,6 +648,7 @@ class SymExec:
         b = self.body
         for i in range(1, b.argc + 1):
             name = b.local_name(i)
+            name = self.rename.get(name, name)
             ty = b.locals[i]["ty"]
             if self.params and name in self.params:
                 st.store[("L", 0, i)] = self.params[name]
